@@ -9,7 +9,8 @@ verdict depends on (a parameter that influences the verdict but not the key make
 is hash order for Remove/Keep); (COMUT) the Add arm of mutate / mutate_pass_list only grows the selection, Remove/Keep only
 shrink it; to_check pairs Add with the complement and Remove|Keep with the selection; (EXPR) polarity of the predicate per
 operation; create_from_indices builds vertices and the index remap from the same sorted unique list and keeps triangle order
-and winding; unique_vertices collects exactly the three indices of each selected face; (ENC) TriangleFilter fields private."""
+and winding; unique_vertices collects exactly the three indices of each selected face; (ENC) TriangleFilter fields private.
+vertex_check skips further tests only when BOTH planar_tol and angle_tol are None; face_select takes the starting selection as given."""
 NOT_DECIDED = "the values of the geometric predicates (nalgebra angle, parry projections); only which quantity is compared with which is decided"
 ASSUMPTIONS = ["HashSet::insert grows, remove/retain shrink"]
 
